@@ -74,6 +74,8 @@ type Monitors struct {
 	viewBefore      string // C18: logical log before a persistence acknowledgement is processed
 	// C15: fault-free suffixes run / converged, rounds (ticks) needed
 	healRuns, healed, healRounds int
+	undecided                    int // fault-free suffixes given up while a winnable election was still being fought
+	excepted                     int // ... that ended in the documented two-voter exception
 	// property-relevant events on which a monitor evaluated its condition (evidence: what was exercised)
 	act map[string]int
 }
